@@ -1,6 +1,7 @@
 import Driver.Loop
 import ElaVerif.Model.P2PFrame
 import ElaVerif.Model.Sha256
+import ElaVerif.Model.P2PMsg
 import ElaVerif.Gen.C35
 open ElaVerif.P2PFrame Driver
 
@@ -42,19 +43,24 @@ def fmtOut (o : Out Bytes) : String :=
   | .ok (c, _) => s!"ok {cmdStr c} {o.consumed} {allocClass o.alloc}"
   | .error e => s!"err {errStr e} {o.consumed} {allocClass o.alloc}"
 
-/-- the per-command codec is an oracle value carried by the op (`dflag`). -/
-def decodeFlag (flag : String) : Bytes → Bytes → Option Bytes :=
-  fun _ p => if flag = "1" then some p else none
+/-- the per-command codec: modelled for the fixed-layout main-net messages
+    (`ElaVerif.P2PMsg.accepts`), otherwise the oracle value carried by the op (`dflag`). -/
+def decodeFlag (st flag : String) : Bytes → Bytes → Option Bytes :=
+  fun c p =>
+    let modelled := if st = "dpos" then none else ElaVerif.P2PMsg.accepts (cmdStr c) p
+    match modelled with
+    | some ok => if ok then some p else none
+    | none => if flag = "1" then some p else none
 
 def step : List String → String
   | ["read", st, magic, dflag, stream] =>
     match stack? st, nat? magic, hexBytes? stream with
-    | some t, some m, some s => fmtOut (readMessage H t (decodeFlag dflag) m s)
+    | some t, some m, some s => fmtOut (readMessage H t (decodeFlag st dflag) m s)
     | _, _, _ => "bad-op"
   | ["corrupt", st, magic, dflag, frame, pos, nb] =>
     match stack? st, nat? magic, hexBytes? frame, nat? pos, nat? nb with
     | some t, some m, some s, some p, some b =>
-      fmtOut (readMessage H t (decodeFlag dflag) m (s.set p (UInt8.ofNat b)))
+      fmtOut (readMessage H t (decodeFlag st dflag) m (s.set p (UInt8.ofNat b)))
     | _, _, _, _, _ => "bad-op"
   | ["hdr", buf] =>
     match hexBytes? buf with
